@@ -41,11 +41,17 @@ LIMITS = {
         (CUT, 16.5): "the longest (with trailing dot) has 16 bytes",
     },
 }
+LIMITS["ada::serializers::ipv6"] = {
+    "_min": 1,
+    (CUT, 1.5): "a run of a single zero piece is not compressed (compress only when the longest run is longer than 1)",
+    (PT, 8): "eight pieces",
+}
+LIMITS["ada::serializers::find_longest_sequence_of_ipv6_pieces"] = {(CUT, 7.5): "eight pieces"}
 LIMITS["ada::url_aggregator::parse_ipv6"] = LIMITS["ada::url::parse_ipv6"]
 LIMITS["ada::url_aggregator::parse_ipv4"] = LIMITS["ada::url::parse_ipv4"]
 
 
-def abstract(nd):
+def abstract(nd, min_abs=2):
     if not (nd.get("k") == "bin" and nd.get("op") in ("<", "<=", ">", ">=", "==", "!=")):
         return None
     l, r = X.const_val(nd["l"]), X.const_val(nd["r"])
@@ -56,7 +62,7 @@ def abstract(nd):
     if isinstance(s0, dict) and (s0.get("chr") or s0.get("str")):
         return None                       # byte classes are the subject of the table rules
     c = r if r is not None else l
-    if isinstance(c, bool) or not isinstance(c, int) or abs(c) < 2:
+    if isinstance(c, bool) or not isinstance(c, int) or abs(c) < min_abs:
         return None
     op = nd["op"]
     if l is not None:
@@ -82,8 +88,10 @@ def check(ctx, fx, rule="H7"):
             ctx.broken("%s: %s not found (the table of numeric limits in rules/c10_limits.py names it)" % (rule, q))
         for f in fs:
             got = {}
+            want = dict(want)
+            min_abs = want.pop("_min", 2)
             for nd, st, b in C.all_nodes(f):
-                a = abstract(nd)
+                a = abstract(nd, min_abs)
                 if a is not None:
                     got.setdefault(a, st.get("loc") or f["loc"])
             if not got and not f.get("blocks"):
@@ -99,4 +107,4 @@ def check(ctx, fx, rule="H7"):
                               "; ".join("%s at %s" % (fmt(x), str(got[x]).replace("/repo/", "")) for x in extra),
                               "; ".join(fmt(x) for x in sorted(want, key=str))) if extra else ""),
                       where=f["loc"].replace("/repo/", ""))
-    ctx.floor(rule, n, 6, "functions whose numeric limits are compared with the Standard's")
+    ctx.floor(rule, n, 8, "functions whose numeric limits are compared with the Standard's")
